@@ -187,7 +187,7 @@ pub fn checks(tier: Tier) -> Vec<Check> {
     vec![Check {
         name: "C09.verify-model".into(),
         strategy: strategy(),
-        cases: tier.scale(4_000, 30),
+        cases: tier.scale(12_000, 15),
         exec: Box::new(crate::ops::exec),
         oracle: Box::new(crate::mops::oracle),
         classify: Box::new(classify),
